@@ -519,6 +519,22 @@ def run(ctx) -> None:
                     seps.add(x.args[0].value)
         ok = sep_w is not None and seps == {sep_w}
         rep.add("C14.R5", "separator-agreement", ok, conv.loc(), f"writer joins with {sep_w!r}, PauseInfo splits on {sorted(seps)}" if ok else f"path separator differs: writer {sep_w!r} vs PauseInfo {sorted(seps)}")
+        # what the re-raised pause says about the interrupt — the value shown, the names to answer under — is the inner
+        # pause's own: every field but the path-qualified node name is copied from the same field of the inner pause
+        pis = [c for c in walk_local(conv.node) if isinstance(c, ast.Call) and (dotted(c.func) or "").split(".")[-1] == "PauseInfo"]
+        cdefs = db.local_defs(conv)
+        for pc in pis:
+            wrong = None
+            for k in pc.keywords:
+                if k.arg in (None, "node_name"):
+                    continue
+                v = k.value
+                base_ok = isinstance(v, ast.Attribute) and v.attr == k.arg and (src(v.value).endswith(".pause") or (isinstance(v.value, ast.Name) and any(src(getattr(d_, "value", None) or ast.Constant("")).endswith(".pause") for d_ in cdefs.get(v.value.id, []))))
+                if not base_ok:
+                    wrong = wrong or k
+            rep.add("C14.R5", f"{conv.qname}:inner-pause-fields-copied", wrong is None and len(pc.keywords) >= 3, f"{conv.module.rel}:{(wrong.value if wrong else pc).lineno}", "every field of the re-raised pause except the node path is the inner pause's own field" if wrong is None else f"'{wrong.arg}={src(wrong.value)}' is not the inner pause's '{wrong.arg}': a pause inside a nested graph shows the caller something else than the interrupt's own {wrong.arg} (e.g. the nested run's partial outputs instead of the inputs the human is asked about), differently at every nesting level")
+        if not pis:
+            raise AnalysisError("nested pause converter builds no PauseInfo")
         # every answer key follows the whole nesting path: all graph-node names before the interrupt's own name, joined
         # by '.', in both key properties (they must agree with each other at any depth)
         n_keys = 0
